@@ -198,6 +198,13 @@ KA(d, flow, beta, gamma, dev) ==
                <<IF r <= c THEN RAdd(B[r][c][1], G[r][c][1]) ELSE RSub(B[r][c][1], G[r][c][1]),
                  RAdd(B[r][c][2], G[r][c][2])>>])])
     ELSE KALit(d, flow, beta, gamma)
+(* coefficients from Mach number M (> 1), air density, speed, sound speed: linear piston theory.
+   root must be the rational square root of M^2 - 1 (requests use Mach numbers with rational roots) *)
+AeroCoeffs(M, root, rho, vel, ainf, r) ==
+    LET beta == RDiv(RMul(rho, RMul(vel, vel)), root)
+    IN [beta |-> beta,
+        gamma |-> IF RIsZero(r) THEN RZero ELSE RDiv(beta, RMul(RMul(Two, r), root)),
+        aeromu |-> RMul(RDiv(beta, RMul(M, ainf)), RDiv(RSub(RMul(M, M), Two), RSub(RMul(M, M), ROne)))]
 CA(d, aeromu) == LET t(sr, cr) == << BT(T(W,0,0,ROne), T(W,0,0,ROne), RNeg(aeromu), RAbs(aeromu)) >>
                  IN OverPatches(t, d)
 
